@@ -50,8 +50,10 @@ def body(c):
     c.cov["probe_commits"] = stats.get("probe", 0)
     c.cov["reopen_steps_executed"] = {k: stats.get(k, 0) for k in ("reopen", "reopenCompact")}
     c.cov["closed_db_rejections_followed_by_reopen"] = stats.get("commit:closed", 0)
-    if stats.get("probe", 0) < len(sims) * len(confs):
-        raise vlib.Inconclusive("probe commit ran %d times for %d replays" % (stats.get("probe", 0), len(sims) * len(confs)))
+    stopped = sum(e.get("mismatches", 0) for e in c.cov["engines"] if e.get("replay") == "sim-reopen-commit")
+    if stats.get("probe", 0) < len(sims) * len(confs) - stopped:
+        raise vlib.Inconclusive("probe commit ran %d times for %d replays (%d stopped at a mismatch)" % (
+            stats.get("probe", 0), len(sims) * len(confs), stopped))
     good = [h for h, n in zip(sims, car) if n > 0]
     c.add_cases(len(sims) * len(confs), set(K.hist_key(h) for h in good), traces=len(sims) * len(confs))
     c.cov["rule"] = ("histories are behaviours of BadgerKVGen (TLC -simulate, length 34, many re-opens); non-trivial = a "
